@@ -102,6 +102,48 @@ def main(props, jobs=16, list_only=False, only=None) -> int:
   return 1 if bad else 0
 
 
+SEEDED_DIR = os.path.join(os.path.dirname(os.path.dirname(os.path.abspath(__file__))), "seeded")
+
+
+def _run_seed(args):
+  """Apply one stored seeded change (an independently produced breaking change, validated when it
+  was stored) to a scratch copy of the tree and run the property's check on it."""
+  import subprocess
+  from .__main__ import run_check
+  sid, prop = args
+  d = os.path.join(SEEDED_DIR, sid)
+  base = tempfile.mkdtemp(prefix=f"ttverif-seed-{os.getpid()}-")
+  try:
+    root = os.path.join(base, "src", "main", "python")
+    shutil.copytree(DEFAULT_ROOT, root, ignore=shutil.ignore_patterns("__pycache__"))
+    r = subprocess.run(["git", "apply", "--include=src/main/python/*", os.path.join(d, "patch.diff")], cwd=base, capture_output=True, text=True)
+    if r.returncode != 0:
+      return dict(id=sid, status="skipped", why="patch no longer applies to the current tree")
+    buf = io.StringIO()
+    with contextlib.redirect_stdout(buf):
+      rc = run_check(prop, "quick", root, quiet=True)
+    fired = sorted({l.split("rule=")[1].split(" ")[0] for l in buf.getvalue().splitlines() if l.strip().startswith("violated:")})
+    return dict(id=sid, status={0: "missed", 1: "caught"}.get(rc, "analysis-error"), why=",".join(fired))
+  finally:
+    shutil.rmtree(base, ignore_errors=True)
+
+
+def seeds_for(prop: str):
+  out = []
+  if os.path.isdir(SEEDED_DIR):
+    for sid in sorted(os.listdir(SEEDED_DIR)):
+      mp = os.path.join(SEEDED_DIR, sid, "meta.json")
+      if os.path.exists(mp):
+        try:
+          with open(mp, encoding="utf-8") as f:
+            meta = json.load(f)
+        except ValueError:
+          continue
+        if meta.get("property", sid.split("-")[0]) == prop:
+          out.append((sid, prop))
+  return out
+
+
 def summary_for(prop: str):
   """Thorough tier: run this property's variants and print the summary (informational)."""
   try:
@@ -117,5 +159,10 @@ def summary_for(prop: str):
     print(f"  selftest {prop}: {okb} breaking variants detected, {okn} benign variants silent, {len(other)} skipped/failed")
     for r in other:
       print(f"    {r['status']} {r['id']}: {r['why']}")
+    seeds = seeds_for(prop)
+    if seeds:
+      with multiprocessing.Pool(min(16, len(seeds))) as pool:
+        sres = pool.map(_run_seed, seeds, chunksize=1)
+      print(f"  seeded changes {prop}: " + ", ".join(f"{r['id']}={r['status']}" + (f"[{r['why']}]" if r['status'] == 'caught' else "") for r in sres))
   except Exception as e:  # the self-test never decides a property's exit code
     print(f"  selftest {prop}: could not run ({e})")
